@@ -29,7 +29,7 @@ RULE = ("one run = a drawn formula (flat builder / composed with sub-engines / 3
 QUICK_RUNS = 5000
 THOROUGH_RUNS = 300_000
 EXPECT_PROBES = ["staggered_start", "late_attach", "lag_ge_3", "forced_settle", "generated_formula_with_fallback",
-                 "fallback_formula_with_missing_primary"]
+                 "fallback_formula_with_missing_primary", "missing_input_values"]
 
 
 async def _run_once(sim: Sim, spec: dict[str, Any], lockstep: bool) -> list[tuple[int, Any]]:
@@ -45,7 +45,12 @@ async def _run_once(sim: Sim, spec: dict[str, Any], lockstep: bool) -> list[tupl
     chans = [Broadcast(name=f"in{tag}{i}") for i in range(n)]
     rxs = [c.new_receiver(limit=cap) for c in chans]
     txs = [c.new_sender() for c in chans]
-    naz = [False] * n
+    naz = spec.get("naz") or [False] * n
+    missing: set[tuple[int, int]] = spec.get("missing") or set()
+
+    def value(i: int, k: int) -> float | None:
+        return None if (i, k) in missing else fc.val(i, k)
+
     extra: list[Any] = []
     if kind == "flat":
         built = fc.build_flat(tree, rxs, naz)
@@ -92,7 +97,7 @@ async def _run_once(sim: Sim, spec: dict[str, Any], lockstep: bool) -> list[tupl
         await asyncio.sleep(0.01)
         for k in range(tstar, end):
             for i in range(n):
-                await txs[i].send(fc.make_sample(sim, k, fc.val(i, k)))
+                await txs[i].send(fc.make_sample(sim, k, value(i, k)))
             await asyncio.sleep(0.5)
     else:
         nxt = list(starts)
@@ -127,7 +132,7 @@ async def _run_once(sim: Sim, spec: dict[str, Any], lockstep: bool) -> list[tupl
             i = cand[ch.draw("which", len(cand))]
             sim.ev("deliver", i, nxt[i])
             sim.note(f"deliver stream {i} T={nxt[i]}")
-            await txs[i].send(fc.make_sample(sim, nxt[i], fc.val(i, nxt[i])))
+            await txs[i].send(fc.make_sample(sim, nxt[i], value(i, nxt[i])))
             nxt[i] += 1
             sent += 1
             started = [nxt[j] for j in range(n)]
@@ -193,6 +198,19 @@ def scenario(sim: Sim) -> None:
         sim.probe("staggered_start")
     spec = dict(n=n, starts=starts, rounds=ch.int_between("rounds", 3, sim.scale(30, 45)), cap=cap,
                 kind=kind, tree=tree, op3=ch.draw("op3", 2) if kind == "3phase" else 0)
+    if kind != "3phase" and ch.chance("missing_values", 0.3):
+        # samples whose value is missing (None) are samples all the same: the timeline clauses do not depend on them.
+        # Biased towards the very first timestamps of a stream (start-up synchronisation) plus a few anywhere.
+        spec["naz"] = [bool(ch.draw("nones_are_zeros", 2)) for _ in range(n)]
+        miss: set[tuple[int, int]] = set()
+        for i in range(n):
+            if ch.chance("missing_at_start", 0.4):
+                for k in range(starts[i], starts[i] + ch.int_between("n_missing_at_start", 1, 3)):
+                    miss.add((i, k))
+            for _ in range(ch.weighted("n_missing_anywhere", [3, 2, 1])):
+                miss.add((i, max(starts) + ch.draw("missing_round", spec["rounds"])))
+        spec["missing"] = miss
+        sim.probe("missing_input_values")
     cost = ch.weighted("cost_mode", [2, 1, 2])
     cost_seed = ch.draw("cost_seed", 1 << 16) if cost == 2 else 0
     sim.config.update(kind=kind, n=n, starts=starts, rounds=spec["rounds"], cap=spec["cap"],
